@@ -1,7 +1,7 @@
 (* C11 -- specification predicates used in the statements of Props/C11.v (no proofs).
    The executable model is Model/C11.v. *)
 From PV Require Import Lib.Base Lib.Round Gen.C11_Tables Model.C11.
-From Coq Require Import QArith Qabs Qround Qminmax.
+From Coq Require Import QArith Qabs Qround Qminmax Sorting.Sorted.
 #[local] Open Scope Z_scope.
 
 (* a list of intervals runs from a to b without gap or overlap, every interval non-empty *)
